@@ -59,9 +59,18 @@ func BuildMapping(k Kind, n Naming) mapping.IndexMapping { return BuildMappingSt
 // of the corpus has it, they are all mapped by the default mapping), style 2
 // validates the mapping once before the array mappings are attached.
 func BuildMappingStyle(k Kind, n Naming, style int) mapping.IndexMapping {
+	// every other round of styles builds the sub-document mappings with the
+	// constructors of the top-level package instead of those of package mapping
+	top := (style/3)%2 == 1
 	sub := func(arr string) *mapping.DocumentMapping {
 		if k.Has(arr) {
+			if top {
+				return bleve.NewNestedDocumentStaticMapping()
+			}
 			return mapping.NewNestedDocumentStaticMapping()
+		}
+		if top {
+			return bleve.NewDocumentStaticMapping()
 		}
 		return mapping.NewDocumentStaticMapping()
 	}
